@@ -20,5 +20,5 @@ mcJobAges == {0}
 mcJobMaxes == {1}
 mcProjOfName == <<>>
 mcWeights == <<>>
-mcOps == {"Publish", "Pull", "Ack", "SeekTime", "ExpireSubs", "SetDelay", "CreateSub", "Tick"}
+mcOps == {"Publish", "Pull", "PullWait", "Ack", "SeekTime", "ExpireSubs", "SetDelay", "CreateSub", "Tick"}
 =============================================================================
